@@ -83,4 +83,3 @@ func (e *engine) checkEqualLine(worker int, raw []byte) error {
 	}
 	return nil
 }
-
